@@ -7,7 +7,7 @@ from unittest import mock
 
 from . import extract
 from .core import OutsideSubset, EngineError
-from .values import Obj, Extern
+from .values import Native,  Obj, Extern
 
 
 class State:
@@ -39,11 +39,22 @@ class Outcome:
         return "Outcome(%s, %r)" % (self.kind, self.value if self.kind == 'return' else self.exc)
 
 
-class NullLog:
+class NullLog(Native):
     """stands for self.log in native runs (logger calls are dropped from the verified text)"""
 
     def __getattr__(self, name):
         return lambda *a, **k: None
+
+    def isEnabledFor(self, level):
+        # the logging level is configuration (elaunch -l): a guard on it is explored both ways (one choice per path)
+        from .values import _CURRENT
+        c = _CURRENT[0]
+        if c is None:
+            return False
+        return c.one_of('logging-enabled-for-level-%s' % level, [False, True])
+
+    def getEffectiveLevel(self):
+        return 20
 
 
 NULLLOG = NullLog()
